@@ -4,7 +4,7 @@ use refmodel::gen;
 use refmodel::json::{show, J};
 use refmodel::rng::{hash64, Rng};
 use refmodel::vt::{self, Policy, RefVt, N_SLOTS};
-use std::io::Write as _;
+use std::io::Write;
 
 fn in_range(outer: &[u8], inner: &[u8]) -> bool {
     let o = outer.as_ptr() as usize;
@@ -282,6 +282,107 @@ pub enum Distinct {
     Skip,
 }
 
+/// Fragments written as `write!(stream, "<literal>")` (no run-time arguments, so `Arguments::as_str()` is `Some`): pieces of
+/// sequences, finals, text.  A never-colour stream must carry its parser state across such calls like across any other.
+pub const LIT_FRAGMENTS: [&str; 30] = ["\x1b[", "\x1b", "1", ";", "31", "38;5;1", "m", "bold", "\x1b[0m", "\x1b]0;", "title", "\x07", "\x1b\\", "\x1bP1$q", " text
+", "\u{e9}", "\u{1f600}", "[", "]", "\x1b[1mred\x1b[0m", "0", "\t", "\x1b(", "B", "\x18", "?25h", "\x1b[38:2:1:2", ":3m", "\u{6f22}", "x"];
+
+/// characters cut short, only ever written with `write_all` (indices LIT_FRAGMENTS.len()..): the formatted write that
+/// follows finds the stream in the middle of a character
+pub const CUT_FRAGMENTS: [&[u8]; 3] = [b"\xf0\x9f", b"\xe6\xbc", b"\xc3"];
+
+fn fragment(k: usize) -> &'static [u8] {
+    if k < LIT_FRAGMENTS.len() {
+        LIT_FRAGMENTS[k].as_bytes()
+    } else {
+        CUT_FRAGMENTS[(k - LIT_FRAGMENTS.len()) % CUT_FRAGMENTS.len()]
+    }
+}
+
+fn write_lit_fragment(w: &mut dyn Write, k: usize) -> std::io::Result<()> {
+    match k {
+        0 => write!(w, "\x1b["),
+        1 => write!(w, "\x1b"),
+        2 => write!(w, "1"),
+        3 => write!(w, ";"),
+        4 => write!(w, "31"),
+        5 => write!(w, "38;5;1"),
+        6 => write!(w, "m"),
+        7 => write!(w, "bold"),
+        8 => write!(w, "\x1b[0m"),
+        9 => write!(w, "\x1b]0;"),
+        10 => write!(w, "title"),
+        11 => write!(w, "\x07"),
+        12 => write!(w, "\x1b\\"),
+        13 => write!(w, "\x1bP1$q"),
+        14 => write!(w, " text
+"),
+        15 => write!(w, "\u{e9}"),
+        16 => write!(w, "\u{1f600}"),
+        17 => write!(w, "["),
+        18 => write!(w, "]"),
+        19 => write!(w, "\x1b[1mred\x1b[0m"),
+        20 => write!(w, "0"),
+        21 => write!(w, "\t"),
+        22 => write!(w, "\x1b("),
+        23 => write!(w, "B"),
+        24 => write!(w, "\x18"),
+        25 => write!(w, "?25h"),
+        26 => write!(w, "\x1b[38:2:1:2"),
+        27 => write!(w, ":3m"),
+        28 => write!(w, "\u{6f22}"),
+        _ => write!(w, "x"),
+    }
+}
+
+/// steps: (fragment index, how it is written: 0 literal `write!`, 1 `write_all`, 2 `write!("{}")`)
+pub fn check_literal_script(steps: &[(usize, u8)]) -> Result<(), (String, String)> {
+    let mut data = Vec::new();
+    for (k, _) in steps {
+        data.extend_from_slice(fragment(*k));
+    }
+    let exp = expect_for(&data, None);
+    let valid = std::str::from_utf8(&data).is_ok();
+    let mut strip = anstream::StripStream::new(Vec::new());
+    let mut auto = anstream::AutoStream::never(Vec::new());
+    for (k, how) in steps {
+        for (name, w) in [("StripStream", &mut strip as &mut dyn Write), ("AutoStream::never", &mut auto as &mut dyn Write)] {
+            let r = match how {
+                _ if *k >= LIT_FRAGMENTS.len() => w.write_all(fragment(*k)),
+                0 => write_lit_fragment(w, *k),
+                1 => w.write_all(fragment(*k)),
+                _ => write!(w, "{}", LIT_FRAGMENTS[*k]),
+            };
+            r.map_err(|e| (format!("c01:{name}(literal-fragments):error"), format!("write to Vec failed: {e}")))?;
+        }
+    }
+    let describe = || steps.iter().map(|(k, h)| format!("{}{:?}", if *k >= LIT_FRAGMENTS.len() { "write_all " } else { ["write!(lit) ", "write_all ", "write!({}) "][*h as usize] }, show(fragment(*k)))).collect::<Vec<_>>().join(", ");
+    for (name, out) in [("StripStream", strip.into_inner()), ("AutoStream::never", auto.into_inner())] {
+        if !valid {
+            compare_invalid(&format!("{name}(literal-fragments)"), &data, &out, &exp.visible).map_err(|(s, m)| (s, format!("[{}] {m}", describe())))?;
+            continue;
+        }
+        if out != exp.visible {
+            return Err((format!("c01:{name}(literal-fragments):visible-text"), format!("[{}] observed {:?}, expected {:?}", describe(), show(&out), show(&exp.visible))));
+        }
+    }
+    Ok(())
+}
+
+fn eval_literal_script(steps: &[(usize, u8)], st: &mut Stats) {
+    st.eval();
+    st.count("literal_fragment_scripts");
+    let mut case = Case::new("c01-lit");
+    for (k, h) in steps {
+        case = case.n(*k as i64).n(*h as i64);
+    }
+    match crate::guarded(|| check_literal_script(steps)) {
+        Ok(Ok(())) => {}
+        Ok(Err((sig, msg))) => st.viol(&sig, msg, case),
+        Err(p) => st.viol("c01:panic", format!("[literal fragments] panicked: {p}"), case),
+    }
+}
+
 fn eval(data: &[u8], st: &mut Stats, distinct: Distinct, origin: &str) {
     if origin == "whitespace-then-run-inside-sequence" && crate::tiny_skip(8) {
         return;
@@ -310,6 +411,49 @@ pub fn run(cfg: &Cfg) -> Stats {
     };
     let mut st = par(cfg, |shard, n| {
         let mut st = Stats::new();
+        // scripts of literal-only formatted writes mixed with the other call kinds: all pairs and triples of fragments
+        // written as literals, and pseudo-random scripts of 2..=8 steps
+        {
+            let nf = LIT_FRAGMENTS.len();
+            let mut k = 0u64;
+            for a in 0..nf {
+                for b in 0..nf {
+                    k += 1;
+                    if k % n != shard {
+                        continue;
+                    }
+                    eval_literal_script(&[(a, 0), (b, 0)], &mut st);
+                    eval_literal_script(&[(a, 1), (b, 0), (19, 1)], &mut st);
+                    eval_literal_script(&[(a, 0), (b, 2), (6, 0), (7, 1)], &mut st);
+                }
+            }
+            // a byte write that ends inside a character, then a formatted write (literal or with an argument), then text
+            for c in 0..CUT_FRAGMENTS.len() {
+                for b in 0..nf {
+                    k += 1;
+                    if k % n != shard {
+                        continue;
+                    }
+                    for how in [0u8, 2] {
+                        eval_literal_script(&[(7, 1), (nf + c, 1), (b, how), (14, 1)], &mut st);
+                        eval_literal_script(&[(nf + c, 1), (b, how), (b, how)], &mut st);
+                    }
+                }
+            }
+            let nscripts: u64 = match cfg.tier {
+                Tier::Tiny => 50,
+                Tier::Quick => 20_000,
+                Tier::Thorough => 1_000_000,
+            };
+            let mut i = shard;
+            while i < nscripts {
+                let mut rng = Rng::new(cfg.seed, 0xC01_1170_0000 + i);
+                let len = rng.range(2, 8) as usize;
+                let steps: Vec<(usize, u8)> = (0..len).map(|_| (rng.below((nf + CUT_FRAGMENTS.len()) as u64) as usize, [0u8, 0, 0, 1, 2][rng.below(5) as usize])).collect();
+                eval_literal_script(&steps, &mut st);
+                i += n;
+            }
+        }
         let cu = gen::char_units(&gen::CHARS27);
         gen::for_each_string(&cu, lc, shard, n, |s, _| eval(s, &mut st, Distinct::Enumerated, "chars27"));
         let bu = gen::byte_units(&gen::BYTES40);
@@ -392,6 +536,14 @@ pub fn run(cfg: &Cfg) -> Stats {
 }
 
 pub fn replay(case: &Case) -> Result<String, Viol> {
+    if case.kind == "c01-lit" {
+        let steps: Vec<(usize, u8)> = case.nums.chunks(2).filter(|c| c.len() == 2).map(|c| ((c[0] as usize).min(LIT_FRAGMENTS.len() + CUT_FRAGMENTS.len() - 1), (c[1] as u8).min(2))).collect();
+        return match crate::guarded(|| check_literal_script(&steps)) {
+            Ok(Ok(())) => Ok(format!("the never-colour streams agree with the reference on the script {:?}", steps)),
+            Ok(Err((sig, msg))) => Err(Viol { case: case.clone(), msg, sig }),
+            Err(p) => Err(Viol { case: case.clone(), msg: format!("panicked: {p}"), sig: "c01:panic".into() }),
+        };
+    }
     let data = case.bytes.first().cloned().unwrap_or_default();
     let mut st = Stats::new();
     match crate::guarded(|| check_input(&data, &mut st)) {
